@@ -345,7 +345,9 @@ Definition mk_tables (p k f g : Z) : tables :=
      t_log2pol := l2p; t_pol2log := p2l; t_plus1 := pl1t |}.
 
 Definition plun_of (T : tables) : Z -> Z := zget (t_plus1 T).
-Definition range (n : Z) : list Z := map Z.of_nat (seq 0 (Z.to_nat n)).
+Fixpoint range_from (n : nat) (i : Z) : list Z :=
+  match n with O => [] | S m => i :: range_from m (i + 1) end.
+Definition range (n : Z) : list Z := range_from (Z.to_nat n) 0.
 Definition dump_pol2log (T : tables) : list Z := map (zget (t_pol2log T)) (range (t_q T)).
 Definition dump_plus1 (T : tables) : list Z := map (zget (t_plus1 T)) (range (t_q T)).
 
@@ -353,22 +355,22 @@ Definition dump_plus1 (T : tables) : list Z := map (zget (t_plus1 T)) (range (t_
 Definition op1 (T : tables) (name : Z) (a : Z) : Z :=
   let mun := t_one T in let mo := t_mone T in
   match name with
-  | 0 => f_neg mo mun a | 1 => f_negin mo mun a | 2 => f_inv mun a | 3 => f_invin mun a
+  | 0 => f_neg mun mo a | 1 => f_negin mun mo a | 2 => f_inv mun a | 3 => f_invin mun a
   | _ => gfq_sq mun a
   end.
 Definition op2 (T : tables) (name : Z) (a b : Z) : Z :=
   let mun := t_one T in let mo := t_mone T in let pl := plun_of T in
   match name with
-  | 0 => f_add mun pl a b | 1 => f_addin mun pl a b | 2 => f_sub mo mun pl a b | 3 => f_subin mo mun pl a b
+  | 0 => f_add mun pl a b | 1 => f_addin mun pl a b | 2 => f_sub mun mo pl a b | 3 => f_subin mun mo pl a b
   | 4 => f_mul mun a b | 5 => f_mulin mun a b | 6 => f_div mun a b | 7 => f_divin mun a b
   | _ => gfq_sqadd mun pl a b
   end.
 Definition op3 (T : tables) (name : Z) (a b c : Z) : Z :=
   let mun := t_one T in let mo := t_mone T in let pl := plun_of T in
   match name with
-  | 0 => f_axpy mun pl a b c | 1 => f_axpyin mun pl a b c | 2 => f_maxpyin mo mun pl a b c
-  | 3 => f_axmyin mo mun pl a b c | 4 => f_axmy mo mun pl a b c | 5 => f_maxpy mo mun pl a b c
-  | _ => gfq_mulsub mo mun pl a b c
+  | 0 => f_axpy mun pl a b c | 1 => f_axpyin mun pl a b c | 2 => f_maxpyin mun mo pl a b c
+  | 3 => f_axmyin mun mo pl a b c | 4 => f_axmy mun mo pl a b c | 5 => f_maxpy mun mo pl a b c
+  | _ => gfq_mulsub mun mo pl a b c
   end.
 (* array forms: name, loop style, sz, r, a, b (scalar operands are one-element lists in a/b as documented in the driver) *)
 Definition arr (T : tables) (name : Z) (pre : bool) (sz : Z) (r x y : list Z) (s : Z) : option (list Z) :=
@@ -377,12 +379,12 @@ Definition arr (T : tables) (name : Z) (pre : bool) (sz : Z) (r x y : list Z) (s
   | 0 => arr_mul mun pre sz r x y | 1 => arr_mul_s mun pre sz r x s
   | 2 => arr_div mun pre sz r x y | 3 => arr_div_s mun pre sz r x s
   | 4 => arr_add mun pl pre sz r x y | 5 => arr_add_s mun pl pre sz r x s
-  | 6 => arr_sub mo mun pl pre sz r x y | 7 => arr_sub_s mo mun pl pre sz r x s
-  | 8 => arr_neg mo mun pre sz r x | 9 => arr_inv mun pre sz r x
+  | 6 => arr_sub mun mo pl pre sz r x y | 7 => arr_sub_s mun mo pl pre sz r x s
+  | 8 => arr_neg mun mo pre sz r x | 9 => arr_inv mun pre sz r x
   | 10 => arr_axpy mun pl pre sz r s x y | 11 => arr_axpy_s mun pl pre sz r s x (hd 0 y)
   | 12 => arr_axpyin mun pl pre sz r s x
-  | 13 => arr_axmy mo mun pl pre sz r s x y | 14 => arr_axmy_s mo mun pl pre sz r s x (hd 0 y)
-  | _ => arr_maxpyin mo mun pl pre sz r s x
+  | 13 => arr_axmy mun mo pl pre sz r s x y | 14 => arr_axmy_s mun mo pl pre sz r s x (hd 0 y)
+  | _ => arr_maxpyin mun mo pl pre sz r s x
   end.
 Definition dot (T : tables) (sz : Z) (a b : list Z) : option Z :=
   dotprod (t_one T) (plun_of T) sz a b.
